@@ -33,6 +33,9 @@
      C06_hthdrgen_attained / C06_hthdrgen_below / C06_hthdrgen_zero_leaf   a node of a value array is 255 or a
                               leaf below it, at most every leaf below it; 0 / 1 arrays: 0 iff a leaf below is 0
      C06_hthdrgen_setvalue    TagTree.SetValue in closed form (stores v up the walk until a node holding <= v)
+     C06_hthdrgen_reset_char / C06_hthdrgen_setvalue_char   the trees of preparePacketHeaderPrecinct: after
+                              ResetEncoding every node is unset / low 0 / known false, and every SetValue keeps
+                              "unset iff no processed leaf below, else the minimum of the processed leaves below"
      C06_hthdrgen_5x3         the full coincidence on a 5 x 3 precinct with four coded blocks (kernel run)
      C06_hthdrgen_statement_refuted   T2hProofsGlue.hth_classic_coincide_statement is FALSE as stated:
                               T2hSpec.blk_scope leaves PassLengths / Passes free, which only the classic coder
@@ -47,7 +50,7 @@ From V Require Import Common.Base T2.T2TagTree T2.T2ProofsStore T2.T2ProofsTagTr
   T2Ht.T2hModel T2Ht.T2hSpec T2Ht.T2hProofsGlue
   T2Ht.T2hProofsGen1 T2Ht.T2hProofsGen2 T2Ht.T2hProofsGen3 T2Ht.T2hProofsGen4 T2Ht.T2hProofsGen5
   T2Ht.T2hProofsGen6 T2Ht.T2hProofsGen7 T2Ht.T2hProofsGen8 T2Ht.T2hProofsGen9 T2Ht.T2hProofsGen10
-  T2Ht.T2hProofsGenMain.
+  T2Ht.T2hProofsGen11 T2Ht.T2hProofsGen12 T2Ht.T2hProofsGenMain.
 
 Theorem C06_hthdrgen_dims : forall w h,
   (forall fuel k d, nth_error (tt_dims fuel w h) k = Some d -> d = hth_dim w h (Z.of_nat k)) /\
@@ -316,6 +319,33 @@ Example C06_hthdrgen_setvalue_instance :
   tt_path (tt_reset (tt_new 5 3)) 4 2 = map (hth_id 5 3 4 2) (zseq (Z.of_nat 4)) /\
   (forall k, (k < 4)%nat -> vid (tt_reset (tt_new 5 3)) (cid 5 3 4 2 k)).
 Proof. exact ex_setvalue_hyps. Qed.
+
+Theorem C06_hthdrgen_reset_char : forall w h, 1 <= w <= 2 ^ 63 -> 1 <= h <= 2 ^ 63 ->
+  Char w h (Z.to_nat (hth_levels 64 w h)) (tt_reset (tt_new w h)) [] /\ quiet (tt_reset (tt_new w h)) /\
+  tt_w (tt_reset (tt_new w h)) = w /\ tt_h (tt_reset (tt_new w h)) = h /\
+  tt_lw (tt_reset (tt_new w h)) = tt_lw (tt_new w h).
+Proof. exact reset_char. Qed.
+Print Assumptions C06_hthdrgen_reset_char.
+
+Theorem C06_hthdrgen_setvalue_char : forall w h n, 1 <= w -> 1 <= h ->
+  forall ct acc x y v, Char w h n ct acc -> ingrid w h x y -> Char w h n (tt_setvalue ct x y v) ((x, y, v) :: acc).
+Proof. exact setvalue_char. Qed.
+Print Assumptions C06_hthdrgen_setvalue_char.
+
+Theorem C06_hthdrgen_prepare_char : forall w h n, 1 <= w -> 1 <= h ->
+  forall blocks it zt aI aZ,
+  Char w h n it aI -> Char w h n zt aZ -> quiet it -> quiet zt ->
+  Forall (fun b => ingrid w h (eb_cbx b) (eb_cby b)) blocks ->
+  Char w h n (fst (prepare_values blocks 0 it zt)) (accI_of blocks aI) /\
+  Char w h n (snd (prepare_values blocks 0 it zt)) (accZ_of blocks aZ) /\
+  quiet (fst (prepare_values blocks 0 it zt)) /\ quiet (snd (prepare_values blocks 0 it zt)).
+Proof. exact prepare_values_char. Qed.
+Print Assumptions C06_hthdrgen_prepare_char.
+
+(* the start of the induction exists for every grid (C06_hthdrgen_reset_char), e.g. 5 x 3 with leaf (4, 2) *)
+Example C06_hthdrgen_char_instance :
+  1 <= 5 <= 2 ^ 63 /\ 1 <= 3 <= 2 ^ 63 /\ ingrid 5 3 4 2 /\ Z.to_nat (hth_levels 64 5 3) = 4%nat.
+Proof. vm_compute. repeat split; try reflexivity; intro; discriminate. Qed.
 
 (* the walk list of the classic coder is the reversed stack: Encode runs tt_enc_nodes on rev (tt_path ...) *)
 Theorem C06_hthdrgen_cpath_rev : forall w h x y n,
